@@ -40,6 +40,13 @@ type ReplayFile struct {
 	DrawsFrom int                 `json:"draws_before_shrink"`
 	DrawsTo   int                 `json:"draws_after_shrink"`
 	Trace     interface{}         `json:"trace,omitempty"`
+	// Crash: the run killed the worker PROCESS (an unrecovered panic or a
+	// fatal error on a goroutine of the code under test). The file carries the
+	// seed only (the tape of a run that never returned cannot be recorded or
+	// shrunk); the replay regenerates the run from the seed in a child process
+	// and reproduces if the child dies at the same site.
+	Crash    bool   `json:"crash,omitempty"`
+	CrashLog string `json:"crash_log,omitempty"`
 }
 
 type workerLine struct {
@@ -109,7 +116,14 @@ func Main(m *testing.M, prop string) {
 		os.Exit(parentMain(prop))
 	case "det":
 		os.Exit(detParent(prop))
-	case "worker", "replay", "detworker", "one":
+	case "replay":
+		if os.Getenv("VERIF_CRASHCHILD") == "" {
+			if rf, ok := readReplay(os.Getenv("VERIF_REPLAY")); ok && rf.Crash {
+				os.Exit(crashReplay(prop, os.Getenv("VERIF_REPLAY"), rf, true))
+			}
+		}
+		os.Exit(m.Run())
+	case "worker", "detworker", "one":
 		os.Exit(m.Run())
 	default:
 		fmt.Println("verif check binary: run through /verif/check")
@@ -289,6 +303,9 @@ func workerMain(t *testing.T, prop string) {
 			}
 		}
 		seed := RunSeed(base, k)
+		if rig.OnCrash != nil {
+			os.WriteFile(outPath+".cur", []byte(fmt.Sprintf("%d %d", k, seed)), 0644)
+		}
 		tape := NewTape(seed)
 		armRun(rig, tier, tape, "")
 		arm(seed, runTimeout)
@@ -386,8 +403,17 @@ func replayMain(t *testing.T, prop string) {
 	startWatchdog()
 	armRun(rig, rf.Tier, nil, path)
 	arm(rf.Seed, 10*time.Minute)
-	res := Execute(t, rig, rf.Tier, ReplayTape(rf.Seed, rf.Tape), known)
+	tape := ReplayTape(rf.Seed, rf.Tape)
+	if rf.Crash {
+		tape = NewTape(rf.Seed)
+	}
+	res := Execute(t, rig, rf.Tier, tape, known)
 	disarm()
+	if rf.Crash {
+		// the run came back: the process crash did not happen again
+		fmt.Printf("NOT REPRODUCED (the run regenerated from seed %d completed without killing the process)\n", rf.Seed)
+		os.Exit(0)
+	}
 	if res.Harness != "" {
 		fmt.Printf("HARNESS: %s\n", res.Harness)
 		os.Exit(2)
@@ -471,6 +497,9 @@ func parentMain(prop string) int {
 	var wg sync.WaitGroup
 	outs := make([]string, W)
 	harness := make([]string, W)
+	crashes := make([]int, W)
+	var crashMu sync.Mutex
+	var crashReplays []string
 	for w := 0; w < W; w++ {
 		outs[w] = filepath.Join(tmp, fmt.Sprintf("w%d.jsonl", w))
 		wg.Add(1)
@@ -504,6 +533,33 @@ func parentMain(prop string) int {
 				logf.Close()
 				// find where this process stopped
 				nxt, sawDone := lastDone(outs[w])
+				if (err != nil || !sawDone) && rig.OnCrash != nil && crashes[w] < 3 {
+					// the process died: a Go runtime crash (unrecovered panic / fatal
+					// error) is handed to the rig, which may classify it as a violation
+					logText := tailFile(filepath.Join(tmp, fmt.Sprintf("w%d.log", w)), 400)
+					if isRuntimeCrash(logText) {
+						var k int
+						var seed uint64
+						if cb, rerr := os.ReadFile(outs[w] + ".cur"); rerr == nil {
+							if _, serr := fmt.Sscanf(string(cb), "%d %d", &k, &seed); serr == nil {
+								if class, key, msg, ok := rig.OnCrash(logText); ok {
+									crashes[w]++
+									rf := ReplayFile{Property: prop, Rig: rig.Name, Tier: tier, Seed: seed, Crash: true, CrashLog: lastLines(crashExcerpt(logText), 60),
+										Violation: &Violation{Class: class, Key: key, Message: msg}}
+									rp := filepath.Join(outRoot(), "replays", fmt.Sprintf("%s-%d.json", prop, seed))
+									os.MkdirAll(filepath.Dir(rp), 0755)
+									jb, _ := json.MarshalIndent(rf, "", " ")
+									os.WriteFile(rp, jb, 0644)
+									crashMu.Lock()
+									crashReplays = append(crashReplays, rp)
+									crashMu.Unlock()
+									first = k + W
+									continue
+								}
+							}
+						}
+					}
+				}
 				if err != nil || !sawDone {
 					tail := tailFile(filepath.Join(tmp, fmt.Sprintf("w%d.log", w)), 30)
 					harness[w] = fmt.Sprintf("worker %d exited abnormally (%v); log tail:\n%s", w, err, tail)
@@ -577,6 +633,32 @@ func parentMain(prop string) int {
 			}
 		} else {
 			fmt.Printf("HARNESS: violation in %s did not reproduce from its own tape in a fresh process (exit %d)\n%s\n", rp, code, lastLines(string(outb), 15))
+			exit = 2
+		}
+	}
+	sort.Strings(crashReplays)
+	for _, rp := range crashReplays {
+		rf, ok := readReplay(rp)
+		if !ok {
+			continue
+		}
+		k := rf.Violation.Class + "|" + rf.Violation.Key
+		if seenKey[k] {
+			os.Remove(rp)
+			continue
+		}
+		seenKey[k] = true
+		if what, isKnown := agg.knownWhat[rf.Violation.Key]; isKnown {
+			_ = what
+			agg.knownSeen[rf.Violation.Key]++
+			os.Remove(rp)
+			continue
+		}
+		switch crashReplay(prop, rp, rf, false) {
+		case 1:
+			confirmed = append(confirmed, rp)
+		default:
+			fmt.Printf("HARNESS: process crash recorded in %s did not reproduce from its seed in a fresh process\n", rp)
 			exit = 2
 		}
 	}
@@ -657,4 +739,127 @@ func lastLines(s string, n int) string {
 		lines = lines[len(lines)-n:]
 	}
 	return strings.Join(lines, "\n")
+}
+
+// ---------------------------------------------------------------- process crashes
+
+func readReplay(path string) (ReplayFile, bool) {
+	var rf ReplayFile
+	b, err := os.ReadFile(path)
+	if err != nil || json.Unmarshal(b, &rf) != nil || rf.Violation == nil {
+		return rf, false
+	}
+	return rf, true
+}
+
+// isRuntimeCrash: the log of a process the Go runtime killed (not the
+// kernel's own watchdog, which exits with "HARNESS: watchdog").
+func isRuntimeCrash(log string) bool {
+	if strings.Contains(log, "HARNESS: watchdog") {
+		return false
+	}
+	return strings.Contains(log, "\npanic: ") || strings.HasPrefix(log, "panic: ") || strings.Contains(log, "fatal error: ") || strings.Contains(log, "[signal SIG")
+}
+
+// crashExcerpt cuts the log down to the crash report (from "panic:" / "fatal error:").
+func crashExcerpt(log string) string {
+	for _, mark := range []string{"\npanic: ", "\nfatal error: "} {
+		if i := strings.Index(log, mark); i >= 0 {
+			return log[i+1:]
+		}
+	}
+	return log
+}
+
+// CrashSite returns the panic value line and the first frame of the crashing
+// goroutine that lies in a package whose import path contains pkgPart (the
+// code under test), e.g. "consensus.(*ConsensusReactor).Receive".
+func CrashSite(log, pkgPart string) (value, site string) {
+	ex := crashExcerpt(log)
+	lines := strings.Split(ex, "\n")
+	if len(lines) > 0 {
+		value = strings.TrimSpace(lines[0])
+		if len(value) > 200 {
+			value = value[:200]
+		}
+	}
+	inGoroutine := false
+	for _, ln := range lines {
+		if strings.HasPrefix(ln, "goroutine ") {
+			if inGoroutine {
+				break // only the crashing goroutine (the first one printed)
+			}
+			inGoroutine = true
+			continue
+		}
+		if !inGoroutine || strings.HasPrefix(ln, "\t") || strings.HasPrefix(ln, " ") {
+			continue
+		}
+		if i := strings.Index(ln, pkgPart); i >= 0 {
+			fn := ln[i+len(pkgPart):]
+			if j := strings.LastIndex(fn, "("); j > 0 {
+				fn = fn[:j]
+			}
+			fn = strings.TrimPrefix(fn, "/")
+			// drop closure suffixes and addresses that may vary
+			if j := strings.Index(fn, ".func"); j > 0 {
+				fn = fn[:j]
+			}
+			return value, fn
+		}
+	}
+	return value, ""
+}
+
+// crashReplay regenerates the run of a crash replay file in a child process
+// and reports whether the child dies at the same site. Returns 1 (reproduced,
+// REPRODUCED/VIOLATION lines printed when verbose or confirming), 0 (not
+// reproduced) or 2 (trouble).
+func crashReplay(prop, path string, rf ReplayFile, standalone bool) int {
+	rig := RigFor(prop)
+	if rig.OnCrash == nil {
+		fmt.Printf("HARNESS: %s is a process-crash replay but rig %s has no crash classifier\n", path, rig.Name)
+		return 2
+	}
+	exe, _ := os.Executable()
+	procs := rig.MaxProcs
+	if procs == 0 {
+		procs = 1
+	}
+	scratch, _ := os.MkdirTemp("", "verif-crashreplay-")
+	defer os.RemoveAll(scratch)
+	cmd := exec.Command(exe, "-test.run", "^TestSim$", "-test.count=1", "-test.timeout=0")
+	cmd.Env = append(os.Environ(), "VERIF_MODE=replay", "VERIF_CRASHCHILD=1", "VERIF_REPLAY="+path, "GOMAXPROCS="+strconv.Itoa(procs), "VERIF_SCRATCH="+scratch)
+	outb, _ := cmd.CombinedOutput()
+	log := string(outb)
+	if isRuntimeCrash(log) {
+		if class, key, msg, ok := rig.OnCrash(log); ok && class == rf.Violation.Class && key == rf.Violation.Key {
+			fmt.Printf("REPRODUCED class=%s key=%s\n  %s\n", class, key, msg)
+			ex := strings.Split(crashExcerpt(log), "\n")
+			for _, ln := range ex[:minInt(14, len(ex))] {
+				fmt.Printf("    %s\n", ln)
+			}
+			if standalone {
+				fmt.Printf("VIOLATION property=%s replay=%s\n", prop, path)
+			}
+			return 1
+		} else if ok {
+			fmt.Printf("DIFFERENT violation: the child died at %s|%s, the file is about %s|%s\n", class, key, rf.Violation.Class, rf.Violation.Key)
+			if standalone {
+				return 4
+			}
+			return 0
+		}
+	}
+	if standalone {
+		fmt.Printf("NOT REPRODUCED\n%s\n", lastLines(log, 5))
+	}
+	return 0
+}
+
+func minInt(a, b int) int {
+	if a < b {
+		return a
+	}
+	return b
 }
